@@ -36,39 +36,60 @@ def load_prop(prop: str):
     return importlib.import_module(f'props.{prop}')
 
 
-def _verify_one(args):
-    key, prop, timeout_ms, modules = args
-    # child process: (re)import contracts; z3 state is per process
+_TASKS: list = []      # (func index, Oblig, witness) -- inherited by forked workers
+
+
+def _discharge_idx(args):
+    i, timeout_ms = args
+    from pyvc.verify import discharge
+    fidx, ob, witness = _TASKS[i]
+    try:
+        r = discharge(ob, timeout_ms, witness)
+    except Exception as e:     # pragma: no cover
+        from pyvc.verify import OblResult
+        r = OblResult(ob.name, ob.kind, 'error', 'z3', 0.0, ob.line, ob.func, traceback.format_exc()[-500:])
+    return i, asdict(r)
+
+
+def run_contracts(prop: str, modules: list[str], timeout_ms: int, jobs: int) -> list[dict]:
+    """Phase A (this process): generate the obligations of every function under contract from
+    the current AST.  Phase B (forked pool): discharge them in parallel."""
     from pyvc.contract import REGISTRY
     from pyvc.repo import get_repo
-    from pyvc.verify import verify_function
+    from pyvc.verify import verify_function, finalize
     from pyvc import specs_runtime
     for m in modules:
         importlib.import_module('contracts.' + m)
     specs = specs_runtime.load_specs()
-    con = REGISTRY.contracts[key]
-    try:
-        r = verify_function(get_repo(), REGISTRY, con, prop, specs, timeout_ms)
-    except Exception as e:   # pragma: no cover
-        from pyvc.verify import FuncResult
-        r = FuncResult(con.qualname, key, '', 0, '', 'error', error=traceback.format_exc())
-    d = asdict(r)
-    d['key'] = key
-    d['replay'] = con.replay
-    return d
-
-
-def run_contracts(prop: str, modules: list[str], timeout_ms: int, jobs: int) -> list[dict]:
-    from pyvc.contract import REGISTRY
-    for m in modules:
-        importlib.import_module('contracts.' + m)
     keys = [k for k, c in REGISTRY.contracts.items() if prop in c.props]
-    tasks = [(k, prop, timeout_ms, modules) for k in keys]
-    if not tasks:
-        return []
-    ctx = mp.get_context('fork')
-    with ctx.Pool(min(jobs, len(tasks))) as pool:
-        return pool.map(_verify_one, tasks, chunksize=1)
+    results = []
+    deferred: list = []
+    for k in keys:
+        con = REGISTRY.contracts[k]
+        r = verify_function(get_repo(), REGISTRY, con, prop, specs, timeout_ms, defer=deferred)
+        results.append((k, con, r))
+    _TASKS.clear()
+    res_index = {id(r): i for i, (_, _, r) in enumerate(results)}
+    for (r, obligs, witness) in deferred:
+        for ob in obligs:
+            _TASKS.append((res_index[id(r)], ob, witness))
+    if _TASKS:
+        ctx = mp.get_context('fork')
+        with ctx.Pool(min(jobs, len(_TASKS))) as pool:
+            done = pool.map(_discharge_idx, [(i, timeout_ms) for i in range(len(_TASKS))], chunksize=1)
+        from pyvc.verify import OblResult
+        for i, d in sorted(done):
+            fidx = _TASKS[i][0]
+            results[fidx][2].obligations.append(OblResult(**d))
+    out = []
+    for k, con, r in results:
+        if r.status == 'verified':
+            finalize(r, con)
+        d = asdict(r)
+        d['key'] = k
+        d['replay'] = con.replay
+        out.append(d)
+    return out
 
 
 def load_known() -> list[dict]:
@@ -232,6 +253,10 @@ def finish(prop, tier, seed, pm, funcs: list[dict], extras: list[Extra], t0) -> 
     if n_known and run_level == 'proof':
         # obligations listed as known findings are not discharged: proof level requires discharged == obligations
         run_level = 'other'
+    slow = sorted(obligations, key=lambda o: -(o.get("seconds") or 0))[:5]
+    for o in slow:
+        if (o.get("seconds") or 0) > 5:
+            print('  slow obligation', o['name'], o['seconds'], o['status'], o['backend'])
     samples = [{'obligation': o['name'], 'status': o['status'], 'backend': o['backend'], 'seconds': o['seconds'],
                 'smt2_bytes': o.get('smt_size', 0)} for o in obligations[:6]]
     samples += [{'obligation': o['name'], 'status': o['status'], 'backend': o['backend'], 'model': o.get('model')}
